@@ -72,8 +72,30 @@ Theorem apply_never_damages_disjoint : forall ps s,
 Proof. exact PatchProofs.apply_never_damages_disjoint. Qed.
 Print Assumptions apply_never_damages_disjoint.
 
+(* The command on a file that was named several times, each time written
+   differently: one read-patch-write round per key of its map of patches.
+   While the key is the path as written, the specification is refuted (the
+   second round applies stale spans); with one round per file it holds. *)
+Theorem yr_file_twice_refuted : groups_by_path_as_given = true ->
+  ~ (forall n ps s, 1 <= n -> chain 0 (sort_patches ps) -> in_bounds ps s ->
+     yr_file n ps s = Ok (splice (sort_patches ps) s)).
+Proof. exact PatchProofs.yr_file_twice_refuted. Qed.
+Print Assumptions yr_file_twice_refuted.
+
+Theorem yr_file_once : groups_by_path_as_given = false ->
+  forall n ps s, 1 <= n -> chain 0 (sort_patches ps) -> in_bounds ps s ->
+  yr_file n ps s = Ok (splice (sort_patches ps) s).
+Proof. exact PatchProofs.yr_file_once. Qed.
+Print Assumptions yr_file_once.
+
+Theorem yr_file_named_once : forall ps s,
+  chain 0 (sort_patches ps) -> in_bounds ps s ->
+  yr_file 1 ps s = Ok (splice (sort_patches ps) s).
+Proof. exact PatchProofs.yr_file_named_once. Qed.
+Print Assumptions yr_file_named_once.
+
 (* which of the two holds non-vacuously for the current source *)
-Eval vm_compute in (sorts_by_start, truncates_before_writing, skips_overlapping).
+Eval vm_compute in (sorts_by_start, truncates_before_writing, skips_overlapping, groups_by_path_as_given).
 
 (* hex pattern -> text literal: read back as ONE literal with the same bytes *)
 Theorem read_escape : forall bs rest, read_literal (escape bs ++ rest) = Some (bs, rest).
